@@ -9,6 +9,7 @@ position `k*W + r` holds entry `k` of rank `r`.
 -/
 import KDVerif.Lemmas.SamplersDist
 import KDVerif.Lemmas.SamplersCB
+import KDVerif.Lemmas.C12Extra
 
 namespace KDVerif.C12
 open KDVerif.Samplers
@@ -290,5 +291,499 @@ theorem cb_weighted_epoch_only_through_seed (c : CBCfg) (w : WCfg) (e1 e2 : Nat)
     cases wEffective w with
     | error e => rfl
     | ok eff => simp only; cases popLen eff tape <;> rfl
+
+/-! ## Iterator-level statements
+
+The theorems above speak about `distStream` for an explicit permutation and about `cbGlobal` / `wIter` under the
+assumption that they returned `.ok`.  The theorems below are about the iterators themselves (`distIter`,
+`cbIter`, `wIter`), for arguments the constructors accept, with the only hypotheses on the tape being torch's
+contracts for the draws (`DistTapeOk`, `CBTapeOk`, `MultinomialOk`, all defined in `Model/C12Spec.lean`).
+`distDraw c tape` is the epoch's one draw: the first tape entry when shuffling, `range n` otherwise. -/
+
+/-- what all ranks of one job yield in one epoch, merged round-robin (position `k·W + r` = entry `k` of
+    rank `r`), each rank running `__iter__` on its own copy of the sampler with the same tape -/
+def distRanksTogether (c : DistCfg) (epoch : Nat) (tape : Tape) : List Nat :=
+  interleave c.W (distLen c) (fun r => okOr (distIter { c with rank := r } epoch tape).out)
+
+/-- **C12, "per-rank streams all have exactly len(sampler) entries and interleave back into a single global
+    draw that is the same on every rank"** — for the iterator `distIter`, shuffle and non-shuffle path.
+    For every configuration the constructor accepts (`distCtor`: `rank < W`, `1 ≤ num_repeats`) that passes
+    `__iter__`'s `assert self.shuffle` (`hs`), every epoch and every tape that answers the one `randperm(n)`
+    request with `n` entries (`DistTapeOk`; no condition at all without shuffle): there is ONE list `g` of
+    `len·W` entries such that every rank `r < W` returns `.ok` with exactly `len(sampler)` entries, entry `k`
+    of rank `r` being `g[r + k·W]`, and merging the rank streams round-robin gives back `g`. -/
+theorem distIter_rank_streams (c : DistCfg) (epoch : Nat) (tape : Tape) (hctor : distCtor c = .ok ())
+    (hs : c.shuffle = true ∨ c.R = 1) (ht : DistTapeOk c tape) :
+    ∃ g, distGlobal c (distDraw c tape) = .ok g ∧ g.length = distLen c * c.W ∧
+      (∀ r, r < c.W → ∃ s, (distIter { c with rank := r } epoch tape).out = .ok s ∧
+        s.length = distLen { c with rank := r } ∧ distLen { c with rank := r } = distLen c ∧
+        ∀ k, k < distLen c → s[k]? = g[r + k * c.W]?) ∧
+      distRanksTogether c epoch tape = g := by
+  obtain ⟨hrk, hR⟩ := c12x_distCtor_ok hctor
+  have hW : 0 < c.W := by omega
+  have hp := c12x_distDraw_length c tape ht
+  obtain ⟨g, hg, hl, hall⟩ := dist_rank_streams c (distDraw c tape) hW hR hs hp
+  have hout : ∀ r, (distIter { c with rank := r } epoch tape).out =
+      distStream { c with rank := r } (distDraw c tape) :=
+    fun r => c12x_distIter_out { c with rank := r } epoch tape hs ht
+  refine ⟨g, hg, hl, ?_, ?_⟩
+  · intro r hr
+    obtain ⟨s, h1, h2, h3, h4⟩ := hall r hr
+    exact ⟨s, by rw [hout r]; exact h1, h2, h3, h4⟩
+  · obtain ⟨g', hg', hi⟩ := dist_ranks_interleave_back c (distDraw c tape) hW hR hs hp
+    rw [hg] at hg'
+    injection hg' with hg'
+    unfold distRanksTogether
+    simp only [hout]
+    rw [hi, hg']
+
+example : distCtor ⟨3, 2, 1, true, 0, false, 2⟩ = .ok () ∧ DistTapeOk ⟨3, 2, 1, true, 0, false, 2⟩ [[2, 0, 1]] ∧
+    distRanksTogether ⟨3, 2, 1, true, 0, false, 2⟩ 5 [[2, 0, 1]] = [2, 2, 0, 2] ∧
+    (distIter ⟨3, 2, 0, true, 0, false, 2⟩ 5 [[2, 0, 1]]).out = .ok [2, 0] ∧
+    (distIter ⟨3, 2, 1, true, 0, false, 2⟩ 5 [[2, 0, 1]]).out = .ok [2, 2] :=
+  ⟨rfl, fun _ => ⟨[2, 0, 1], [], rfl, rfl⟩, rfl, rfl, rfl⟩
+
+/-- **C12, totality of the distributed sampler's iterator**: for accepted arguments `__iter__` trips none of
+    its asserts and yields exactly `len(sampler)` indices; `len(sampler)` is `⌊n/W⌋` with `drop_last` and
+    `⌈n/W⌉` without, for every rank the same. -/
+theorem distIter_total (c : DistCfg) (epoch : Nat) (tape : Tape) (hctor : distCtor c = .ok ())
+    (hs : c.shuffle = true ∨ c.R = 1) (ht : DistTapeOk c tape) :
+    (∃ s, (distIter c epoch tape).out = .ok s ∧ s.length = distLen c) ∧
+    distLen c = (if c.dropLast then c.n / c.W else ceilDiv c.n c.W) := by
+  obtain ⟨hrk, _⟩ := c12x_distCtor_ok hctor
+  obtain ⟨g, _, _, hall, _⟩ := distIter_rank_streams c epoch tape hctor hs ht
+  obtain ⟨s, h1, h2, _, _⟩ := hall c.rank hrk
+  exact ⟨⟨s, h1, h2⟩, c12x_distLen_closed c (by omega)⟩
+
+/-- the only accepted arguments left out above: `num_repeats > 1` without shuffle — `__iter__` raises at
+    `assert self.shuffle` before drawing anything -/
+theorem distIter_repeats_need_shuffle (c : DistCfg) (epoch : Nat) (tape : Tape) (hsh : c.shuffle = false)
+    (h1 : c.R ≠ 1) : (distIter c epoch tape).out = .error .assertion ∧ (distIter c epoch tape).reqs = [] :=
+  c12x_distIter_assert c epoch tape hsh h1
+
+/-- **C12, closed form of the global draw the ranks split** (covers "only trailing entries are dropped or
+    wrapped around" and "with repeated augmentation every drawn sample occupies num_repeats consecutive slots of
+    the global draw" in one formula): what the ranks yield together has `len·W` entries and slot `j` holds entry
+    `(j mod n) / num_repeats` of the epoch's draw. -/
+theorem distIter_global_closed_form (c : DistCfg) (epoch : Nat) (tape : Tape) (hctor : distCtor c = .ok ())
+    (hs : c.shuffle = true ∨ c.R = 1) (ht : DistTapeOk c tape) :
+    (distRanksTogether c epoch tape).length = distLen c * c.W ∧
+    ∀ j, j < distLen c * c.W →
+      (distRanksTogether c epoch tape)[j]? = (distDraw c tape)[(j % c.n) / c.R]? := by
+  obtain ⟨hrk, hR⟩ := c12x_distCtor_ok hctor
+  have hW : 0 < c.W := by omega
+  have hp := c12x_distDraw_length c tape ht
+  obtain ⟨g, hg, hl, _, hG⟩ := distIter_rank_streams c epoch tape hctor hs ht
+  rw [hG]
+  refine ⟨hl, ?_⟩
+  intro j hj
+  obtain ⟨base, hb⟩ := distBase_ok c (distDraw c tape) hs
+  obtain ⟨hbl, hbc⟩ := c12x_distBase_closed c (distDraw c tape) base hR hp hb
+  rw [c12x_distDraw_idem] at hbc
+  have hn : 0 < c.n := c12x_n_pos_of_len_pos c hW (by omega)
+  cases hd : c.dropLast with
+  | true =>
+    obtain ⟨h1, h2, _⟩ := dist_drop_last_cuts_tail c _ base g hW hR hp hd hb hg
+    have hjn : j < c.n := by omega
+    rw [h1, List.getElem?_take_of_lt hj, Nat.mod_eq_of_lt hjn]
+    exact hbc j hjn
+  | false =>
+    obtain ⟨_, _, h3⟩ := dist_padding_is_wraparound c _ base g hW hR hp hd hb hg
+    rw [h3 j (by omega)]
+    exact hbc _ (Nat.mod_lt _ hn)
+
+example : distRanksTogether ⟨3, 4, 0, true, 0, false, 2⟩ 0 [[2, 0, 1]] = [2, 2, 0, 2] ∧
+    distRanksTogether ⟨5, 2, 0, true, 0, true, 3⟩ 0 [[4, 1, 0, 3, 2]] = [4, 4, 4, 1] := ⟨rfl, rfl⟩
+
+/-- **C12, the rank streams in closed form**: entry `k` of rank `r` is entry `((r + k·W) mod n) / num_repeats`
+    of the epoch's draw. -/
+theorem distIter_stream_closed_form (c : DistCfg) (epoch : Nat) (tape : Tape) (hctor : distCtor c = .ok ())
+    (hs : c.shuffle = true ∨ c.R = 1) (ht : DistTapeOk c tape) (r : Nat) (hr : r < c.W) :
+    ∃ s, (distIter { c with rank := r } epoch tape).out = .ok s ∧ s.length = distLen c ∧
+      ∀ k, k < distLen c → s[k]? = (distDraw c tape)[((r + k * c.W) % c.n) / c.R]? := by
+  obtain ⟨g, _, _, hall, hG⟩ := distIter_rank_streams c epoch tape hctor hs ht
+  obtain ⟨_, hcl⟩ := distIter_global_closed_form c epoch tape hctor hs ht
+  obtain ⟨s, h1, h2, _, h4⟩ := hall r hr
+  refine ⟨s, h1, h2, ?_⟩
+  intro k hk
+  rw [h4 k hk, ← hG]
+  apply hcl
+  have := mul_succ_le_of_lt (W := c.W) hk
+  omega
+
+/-- **C12, the non-shuffle path**: without shuffle the global draw is `range n` — nothing is asked from
+    torch, the tape is not looked at, and rank `r` yields `(r + k·W) mod n` for `k = 0 … len-1`
+    (`r, r+W, r+2W, …`, wrapping around to the beginning of the dataset when padding). -/
+theorem distIter_noshuffle (c : DistCfg) (epoch : Nat) (tape : Tape) (hctor : distCtor c = .ok ())
+    (hsh : c.shuffle = false) (h1 : c.R = 1) (r : Nat) (hr : r < c.W) :
+    (distIter { c with rank := r } epoch tape).out =
+      .ok ((List.range (distLen c)).map (fun k => (r + k * c.W) % c.n)) ∧
+    (distIter { c with rank := r } epoch tape).reqs = [] ∧ distDraw c tape = List.range c.n := by
+  have ht : DistTapeOk c tape := fun h => by rw [hsh] at h; cases h
+  have hd : distDraw c tape = List.range c.n := by unfold distDraw; simp [hsh]
+  obtain ⟨s, hs1, hs2, hs3⟩ := distIter_stream_closed_form c epoch tape hctor (Or.inr h1) ht r hr
+  refine ⟨?_, ?_, hd⟩
+  · rw [hs1]
+    congr 1
+    apply List.ext_getElem?
+    intro k
+    by_cases hk : k < distLen c
+    · have hn : 0 < c.n := by
+        apply c12x_n_pos_of_len_pos c (by omega)
+        have := mul_succ_le_of_lt (W := c.W) hk
+        omega
+      rw [hs3 k hk, hd, h1, Nat.div_one, List.getElem?_range (Nat.mod_lt _ hn)]
+      simp [hk]
+    · rw [List.getElem?_eq_none_iff.2 (by omega), List.getElem?_eq_none_iff.2 (by simp; omega)]
+  · unfold distIter
+    simp [hsh]
+
+example : (distIter ⟨5, 3, 1, false, 0, false, 1⟩ 7 []).out = .ok [1, 4] ∧
+    (distIter ⟨5, 3, 2, false, 0, false, 1⟩ 7 []).out = .ok [2, 0] ∧
+    (distIter ⟨2, 5, 4, false, 0, false, 1⟩ 7 []).out = .ok [0] := ⟨rfl, rfl, rfl⟩
+
+/-- **C12, "only trailing entries are dropped or wrapped around to make ranks equal"** — on the iterator.
+    `base` is the epoch's draw with every entry repeated `num_repeats` times, cut to `n` entries (the draw
+    itself for `num_repeats = 1`, hence `range n` without shuffle).  With `drop_last` the ranks together yield
+    the first `len·W` entries of `base` and fewer than `W` trailing entries are lost; without it they yield all
+    of `base` followed by fewer than `W` further entries which repeat `base` from its beginning. -/
+theorem distIter_only_tail_differs (c : DistCfg) (epoch : Nat) (tape : Tape) (hctor : distCtor c = .ok ())
+    (hs : c.shuffle = true ∨ c.R = 1) (ht : DistTapeOk c tape) :
+    ∃ base, base.length = c.n ∧ (∀ j, j < c.n → base[j]? = (distDraw c tape)[j / c.R]?) ∧
+      (c.R = 1 → base = distDraw c tape) ∧
+      (c.dropLast = true →
+        distRanksTogether c epoch tape = base.take (distLen c * c.W) ∧
+        distLen c * c.W ≤ c.n ∧ c.n < distLen c * c.W + c.W) ∧
+      (c.dropLast = false →
+        (distRanksTogether c epoch tape).take c.n = base ∧
+        c.n ≤ distLen c * c.W ∧ distLen c * c.W < c.n + c.W ∧
+        ∀ j, j < distLen c * c.W → (distRanksTogether c epoch tape)[j]? = base[j % c.n]?) := by
+  obtain ⟨hrk, hR⟩ := c12x_distCtor_ok hctor
+  have hW : 0 < c.W := by omega
+  have hp := c12x_distDraw_length c tape ht
+  obtain ⟨g, hg, hl, _, hG⟩ := distIter_rank_streams c epoch tape hctor hs ht
+  obtain ⟨base, hb⟩ := distBase_ok c (distDraw c tape) hs
+  obtain ⟨hbl, hbc⟩ := c12x_distBase_closed c (distDraw c tape) base hR hp hb
+  rw [c12x_distDraw_idem] at hbc
+  refine ⟨base, hbl, hbc, ?_, ?_, ?_⟩
+  · intro h1
+    rw [c12x_distBase_R1 c _ base h1 hb, c12x_distDraw_idem]
+  · intro hd
+    rw [hG]
+    exact dist_drop_last_cuts_tail c _ base g hW hR hp hd hb hg
+  · intro hd
+    rw [hG]
+    obtain ⟨h1, h2, h3⟩ := dist_padding_is_wraparound c _ base g hW hR hp hd hb hg
+    rw [hl] at h1 h2 h3
+    refine ⟨?_, h1, h2, h3⟩
+    obtain ⟨hg', _⟩ := distGlobal_ok c _ base hW hR hp hb
+    rw [hg] at hg'
+    injection hg' with hg'
+    rw [hg', hd, ← hbl]
+    exact c12x_distPad_take _ base
+
+example : distRanksTogether ⟨5, 3, 0, true, 0, false, 1⟩ 0 [[4, 1, 0, 3, 2]] = [4, 1, 0, 3, 2, 4] ∧
+    distRanksTogether ⟨5, 3, 0, true, 0, true, 1⟩ 0 [[4, 1, 0, 3, 2]] = [4, 1, 0] := ⟨rfl, rfl⟩
+
+/-- **C12, "with repeated augmentation every drawn sample occupies num_repeats consecutive slots of the global
+    draw"** — on the global draw that the ranks split (after padding / tail cut, not on the intermediate list):
+    the `num_repeats` slots `i·R … i·R + R - 1` of what the ranks yield together all hold the `i`-th drawn sample
+    (as far as they lie inside the first `n` slots and inside the epoch), and every slot `j ≥ n` — the padded
+    tail — repeats slot `j - n`, i.e. the tail is the wrap-around of that same draw. -/
+theorem distIter_repeats_consecutive (c : DistCfg) (epoch : Nat) (tape : Tape) (hctor : distCtor c = .ok ())
+    (hs : c.shuffle = true ∨ c.R = 1) (ht : DistTapeOk c tape) :
+    (∀ i t, t < c.R → i * c.R + t < c.n → i * c.R + t < distLen c * c.W →
+      (distRanksTogether c epoch tape)[i * c.R + t]? = (distDraw c tape)[i]?) ∧
+    (∀ j, c.n ≤ j → j < distLen c * c.W →
+      (distRanksTogether c epoch tape)[j]? = (distRanksTogether c epoch tape)[j - c.n]?) := by
+  obtain ⟨_, hcl⟩ := distIter_global_closed_form c epoch tape hctor hs ht
+  constructor
+  · intro i t htR hn hlen
+    rw [hcl _ hlen, Nat.mod_eq_of_lt hn]
+    have : (i * c.R + t) / c.R = i := by
+      rw [Nat.mul_comm, Nat.mul_add_div (by omega), Nat.div_eq_of_lt htR, Nat.add_zero]
+    rw [this]
+  · intro j hnj hj
+    rw [hcl j hj, hcl (j - c.n) (by omega), Nat.mod_eq_sub_mod hnj]
+
+example : distRanksTogether ⟨5, 4, 0, true, 0, false, 2⟩ 0 [[4, 1, 0, 3, 2]] = [4, 4, 1, 1, 0, 4, 4, 1] := rfl
+
+/-- **C12, "equal (seed, epoch) reproduces it"** — as a statement about the whole run (requests and stream):
+    two sampler objects of the same shape on the same rank whose `seed + epoch` agree and whose tapes agree in
+    the first entry (torch's answer to the one `randperm`) make the same requests and yield the same stream;
+    nothing else (no state kept between epochs, nothing further down the tape) enters. -/
+theorem distIter_reproducible (c1 c2 : DistCfg) (e1 e2 : Nat) (t1 t2 : Tape)
+    (hn : c1.n = c2.n) (hW : c1.W = c2.W) (hr : c1.rank = c2.rank) (hsh : c1.shuffle = c2.shuffle)
+    (hd : c1.dropLast = c2.dropLast) (hR : c1.R = c2.R)
+    (hseed : epochSeed c1.seed e1 = epochSeed c2.seed e2) (hdraw : t1.head? = t2.head?) :
+    (distIter c1 e1 t1).reqs = (distIter c2 e2 t2).reqs ∧ (distIter c1 e1 t1).out = (distIter c2 e2 t2).out := by
+  obtain ⟨n1, W1, r1, sh1, seed1, d1, R1⟩ := c1
+  obtain ⟨n2, W2, r2, sh2, seed2, d2, R2⟩ := c2
+  simp only at hn hW hr hsh hd hR hseed
+  subst hn hW hr hsh hd hR
+  unfold distIter
+  simp only [hseed]
+  cases sh1 with
+  | false => exact ⟨rfl, rfl⟩
+  | true =>
+    simp only [Bool.true_eq_false, if_false]
+    cases t1 with
+    | nil =>
+      cases t2 with
+      | nil => exact ⟨rfl, rfl⟩
+      | cons q t2 => simp at hdraw
+    | cons p t1 =>
+      cases t2 with
+      | nil => simp at hdraw
+      | cons q t2 =>
+        simp only [List.head?_cons, Option.some.injEq] at hdraw
+        subst hdraw
+        unfold popLen
+        by_cases hp : p.length = n1
+        · simp [hp]
+          rfl
+        · simp [hp]
+
+/-- equal `(seed, epoch)` and equal tape ⇒ equal streams on every rank, and the requests of all ranks are equal
+    (instance of `distIter_reproducible`, `dist_global_draw_rank_independent`) -/
+theorem distIter_reproducible_every_rank (c : DistCfg) (seed' : Int) (e e' : Nat) (tape : Tape)
+    (h : seed' = c.seed ∧ e' = e) (r : Nat) :
+    (distIter { c with rank := r, seed := seed' } e' tape).out = (distIter { c with rank := r } e tape).out ∧
+    (distIter { c with rank := r, seed := seed' } e' tape).reqs = (distIter c e tape).reqs := by
+  rw [h.1, h.2]
+  exact ⟨rfl, (dist_global_draw_rank_independent c r e [] tape).2.2⟩
+
+/-! ### WeightedSampler, iterator level -/
+
+/-- what all ranks of a weighted-sampler job yield in one epoch, merged round-robin -/
+def wRanksTogether (c : WCfg) (epoch : Nat) (tape : Tape) : List Nat :=
+  interleave (wsOf c.wsArg) (wSize c / wsOf c.wsArg)
+    (fun r => okOr (wIter { c with rankArg := some r } epoch tape).out)
+
+/-- **C12 for the weighted sampler: per-rank length, interleave-back, tail-only loss** — unconditionally on the
+    iterator.  Domain: `size` is `None` or at most the dataset size (`hsz`, the assert of `effective_length`;
+    `wSize c` is `size` defaulting to `n`); the tape starts with torch's answer `d` to the one
+    `multinomial(weights, effective_length, replacement=False)`, which has `effective_length` entries (`hd`).
+    Then the world size is positive, every rank `r < W` returns `.ok` with exactly `len(sampler) = size // W`
+    entries, entry `k` of rank `r` being `d[r + k·W]` (one global draw `d`, the same for all ranks); the rank
+    streams merge back into the first `len·W` entries of `d`; fewer than `W` trailing entries of `d` are lost,
+    none if `W` divides `size`. -/
+theorem weighted_ranks_total (c : WCfg) (epoch : Nat) (d : List Nat) (rest : Tape)
+    (hsz : ∀ s, c.size = some s → s ≤ c.n) (hd : d.length = wSize c) :
+    let W := wsOf c.wsArg
+    let len := wSize c / W
+    0 < W ∧
+    (∀ r, r < W → ∃ s, (wIter { c with rankArg := some r } epoch (d :: rest)).out = .ok s ∧
+        wLen { c with rankArg := some r } = .ok len ∧ s.length = len ∧
+        ∀ k, k < len → s[k]? = d[r + k * W]?) ∧
+    wRanksTogether c epoch (d :: rest) = d.take (len * W) ∧
+    len * W ≤ wSize c ∧ wSize c < len * W + W ∧
+    (wSize c % W = 0 → wRanksTogether c epoch (d :: rest) = d) := by
+  intro W len
+  have hW : 0 < W := c12x_wsOf_pos c.wsArg
+  have he := c12x_wEffective_ok c hsz
+  have hp : popLen (wSize c) (d :: rest) = some (d, rest) := c12x_popLen_cons hd
+  have hstream := fun r => weighted_rank_streams c epoch (wSize c) d rest (d :: rest) he hp r
+  obtain ⟨hspec, hint, hle, hlt⟩ := slice_rank_streams d W (wSize c) hW (by rw [hd]; exact Nat.le_refl _)
+  have htog : wRanksTogether c epoch (d :: rest) = d.take (len * W) := by
+    rw [← hint]
+    unfold wRanksTogether
+    congr 1
+    funext r
+    rw [(hstream r).1]
+    rfl
+  refine ⟨hW, ?_, htog, hle, hlt, ?_⟩
+  · intro r hr
+    obtain ⟨h1, h2, _, _⟩ := hstream r
+    obtain ⟨h3, h4⟩ := hspec r hr
+    exact ⟨_, h1, h2, h3, h4⟩
+  · intro hmod
+    rw [htog]
+    have : len * W = wSize c := by
+      have h1 := Nat.div_add_mod (wSize c) W
+      rw [hmod, Nat.add_zero, Nat.mul_comm] at h1
+      exact h1
+    rw [this, ← hd, List.take_length]
+
+example : wRanksTogether ⟨6, 6, some 5, 0, none, some 2⟩ 3 [[2, 0, 3, 1, 5]] = [2, 0, 3, 1] ∧
+    (wIter ⟨6, 6, some 5, 0, some 1, some 2⟩ 3 [[2, 0, 3, 1, 5]]).out = .ok [0, 1] ∧
+    wLen ⟨6, 6, some 5, 0, some 1, some 2⟩ = .ok 2 := ⟨rfl, rfl, rfl⟩
+
+/-- **totality of the weighted sampler's iterator** for the sampler object itself (whatever way its rank was
+    given, `rank=None` meaning rank 0): with `size ≤ n`, a rank below the world size and a well-shaped draw it
+    yields exactly `len(sampler)` indices; with `size > n` both `__len__` and `__iter__` raise the assert of
+    `effective_length` on every tape. -/
+theorem weighted_iter_total (c : WCfg) (epoch : Nat) :
+    ((∀ s, c.size = some s → s ≤ c.n) → rankOf c.rankArg < wsOf c.wsArg →
+      ∀ d rest, d.length = wSize c →
+        ∃ s, (wIter c epoch (d :: rest)).out = .ok s ∧ wLen c = .ok s.length ∧
+          s.length = wSize c / wsOf c.wsArg) ∧
+    (∀ sz, c.size = some sz → c.n < sz →
+      ∀ tape, (wIter c epoch tape).out = .error .assertion ∧ wLen c = .error .assertion) := by
+  constructor
+  · intro hsz hr d rest hd
+    have he := c12x_wEffective_ok c hsz
+    have hp : popLen (wSize c) (d :: rest) = some (d, rest) := c12x_popLen_cons hd
+    obtain ⟨h3, _⟩ := rankSlice_spec d (rankOf c.rankArg) (wsOf c.wsArg) (wSize c) (wSize c / wsOf c.wsArg) hr
+      (Nat.div_mul_le_self _ _) (by rw [hd]; exact Nat.le_refl _)
+    refine ⟨rankSlice d (rankOf c.rankArg) (wsOf c.wsArg) (wSize c) (wSize c / wsOf c.wsArg), ?_, ?_, h3⟩
+    · unfold wIter
+      rw [he]
+      simp only [hp]
+    · unfold wLen
+      rw [he, h3]
+  · intro sz hsz hlt tape
+    have he := c12x_wEffective_err c sz hsz hlt
+    constructor
+    · unfold wIter
+      rw [he]
+    · unfold wLen
+      rw [he]
+
+/-- **reproducibility of the weighted sampler** as a statement about the whole run: equal shape, equal
+    `seed + epoch`, equal first tape entry (the multinomial draw) ⇒ equal requests and equal stream. -/
+theorem weighted_iter_reproducible (c1 c2 : WCfg) (e1 e2 : Nat) (t1 t2 : Tape)
+    (hn : c1.n = c2.n) (hw : c1.nWeights = c2.nWeights) (hsz : c1.size = c2.size)
+    (hr : c1.rankArg = c2.rankArg) (hW : c1.wsArg = c2.wsArg)
+    (hseed : epochSeed c1.seed e1 = epochSeed c2.seed e2) (hdraw : t1.head? = t2.head?) :
+    (wIter c1 e1 t1).reqs = (wIter c2 e2 t2).reqs ∧ (wIter c1 e1 t1).out = (wIter c2 e2 t2).out := by
+  obtain ⟨n1, w1, s1, seed1, r1, W1⟩ := c1
+  obtain ⟨n2, w2, s2, seed2, r2, W2⟩ := c2
+  simp only at hn hw hsz hr hW hseed
+  subst hn hw hsz hr hW
+  have he : wEffective ⟨n1, w1, s1, seed1, r1, W1⟩ = wEffective ⟨n1, w1, s1, seed2, r1, W1⟩ := rfl
+  unfold wIter
+  simp only [hseed, he]
+  cases wEffective ⟨n1, w1, s1, seed2, r1, W1⟩ with
+  | error e => exact ⟨rfl, rfl⟩
+  | ok eff =>
+    simp only
+    cases t1 with
+    | nil =>
+      cases t2 with
+      | nil => exact ⟨rfl, rfl⟩
+      | cons q t2 => simp at hdraw
+    | cons p t1 =>
+      cases t2 with
+      | nil => simp at hdraw
+      | cons q t2 =>
+        simp only [List.head?_cons, Option.some.injEq] at hdraw
+        subst hdraw
+        unfold popLen
+        by_cases hp : p.length = eff
+        · simp [hp]
+        · simp [hp]
+
+/-! ### ClassBalancedSampler, iterator level -/
+
+/-- what all ranks of a class-balanced-sampler job yield in one epoch, merged round-robin -/
+def cbRanksTogether (c : CBCfg) (epoch : Nat) (tape : Tape) : List Nat :=
+  interleave (wsOf c.wsArg) (cbLen c) (fun r => okOr (cbIter { c with rankArg := some r } epoch tape).out)
+
+/-- **C12 for the class-balanced sampler: totality, per-rank length `= len(sampler)` for every rank,
+    interleave-back, tail-only loss** — unconditionally on the iterator.  Domain: the constructor accepted
+    (`cbCtor`: as many distinct labels as classes), the labels are class ids below `num_classes` (`CBLabelsOk`,
+    the promise of `getdim_class`), and the tape answers the `randperm` requests in torch's shapes (`CBTapeOk`:
+    per class `⌈samples_per_class / m⌉` results of `randperm(m)`, then one `randperm(C·spc)`; no condition at all
+    with `shuffle=False`).  Then `__iter__` raises nothing (no `IndexError`, no endless `while`), there is one
+    global draw `G.g` of `C·spc` entries, every rank `r < W` yields exactly `len(sampler)` entries, entry `k` of
+    rank `r` being `G.g[r + k·W]`; merged, the ranks give the first `len·W` entries of `G.g`; fewer than `W`
+    trailing entries are lost, none if `W` divides `C·spc`. -/
+theorem balanced_ranks_split (c : CBCfg) (epoch : Nat) (tape : Tape) (hctor : cbCtor c = .ok ())
+    (hlab : CBLabelsOk c) (ht : CBTapeOk c tape) :
+    let W := wsOf c.wsArg
+    ∃ G, cbGlobal c tape = .ok G ∧ G.g.length = cbNumClasses c * cbSpc c ∧
+      (∀ r, r < W → ∃ s, (cbIter { c with rankArg := some r } epoch tape).out = .ok s ∧
+        s.length = cbLen { c with rankArg := some r } ∧ cbLen { c with rankArg := some r } = cbLen c ∧
+        ∀ k, k < cbLen c → s[k]? = G.g[r + k * W]?) ∧
+      cbRanksTogether c epoch tape = G.g.take (cbLen c * W) ∧
+      cbLen c * W ≤ cbNumClasses c * cbSpc c ∧ cbNumClasses c * cbSpc c < cbLen c * W + W ∧
+      ((cbNumClasses c * cbSpc c) % W = 0 → cbRanksTogether c epoch tape = G.g) := by
+  intro W
+  have hW : 0 < W := c12x_wsOf_pos c.wsArg
+  obtain ⟨G, hG, _⟩ := c12x_cbGlobal_total c tape (c12x_cb_pools_pos c hctor hlab) ht
+  have hlen : G.g.length = cbEffective c := (cb_rank_streams c epoch tape G hG 0).1
+  obtain ⟨hspec, hint, hle, hlt⟩ := slice_rank_streams G.g W (cbEffective c) hW (by rw [hlen]; exact Nat.le_refl _)
+  have htog : cbRanksTogether c epoch tape = G.g.take (cbLen c * W) := by
+    have : cbLen c = cbEffective c / W := rfl
+    rw [this, ← hint]
+    unfold cbRanksTogether
+    congr 1
+    funext r
+    rw [(cb_rank_streams c epoch tape G hG r).2.2.1]
+    rfl
+  refine ⟨G, hG, hlen, ?_, htog, hle, hlt, ?_⟩
+  · intro r hr
+    obtain ⟨h3, h4⟩ := hspec r hr
+    exact ⟨_, (cb_rank_streams c epoch tape G hG r).2.2.1, h3, rfl, h4⟩
+  · intro hmod
+    rw [htog]
+    have : cbLen c * W = cbEffective c := by
+      have h1 := Nat.div_add_mod (cbEffective c) W
+      have h2 : cbEffective c % W = 0 := hmod
+      rw [h2, Nat.add_zero, Nat.mul_comm] at h1
+      exact h1
+    rw [this, ← hlen, List.take_length]
+
+example : cbCtor ⟨[0, 1, 1, 1, 0], 1, true, some 4, 0, none, some 3⟩ = .ok () ∧
+    cbRanksTogether ⟨[0, 1, 1, 1, 0], 1, true, some 4, 0, none, some 3⟩ 0
+      [[1, 0], [0, 1], [2, 0, 1], [1, 2, 0], [7, 0, 3, 2, 6, 1, 5, 4]] = [2, 4, 4, 0, 2, 0] ∧
+    cbLen ⟨[0, 1, 1, 1, 0], 1, true, some 4, 0, none, some 3⟩ = 2 := ⟨rfl, rfl, rfl⟩
+
+/-- the hypotheses of `balanced_ranks_split` are satisfiable (shuffle, two passes per class) -/
+example : CBLabelsOk ⟨[0, 1, 1, 1, 0], 1, true, some 4, 0, none, some 3⟩ ∧
+    CBTapeOk ⟨[0, 1, 1, 1, 0], 1, true, some 4, 0, none, some 3⟩
+      [[1, 0], [0, 1], [2, 0, 1], [1, 2, 0], [7, 0, 3, 2, 6, 1, 5, 4]] := by
+  constructor
+  · intro v hv
+    simp at hv
+    rcases hv with rfl | rfl | rfl
+    · exact ⟨0, by decide, rfl⟩
+    · exact ⟨1, by decide, rfl⟩
+    · exact ⟨0, by decide, rfl⟩
+  · intro _
+    refine ⟨[[[1, 0], [0, 1]], [[2, 0, 1], [1, 2, 0]]], [7, 0, 3, 2, 6, 1, 5, 4], [], rfl, ?_, ?_⟩
+    · refine ⟨⟨rfl, ?_⟩, ⟨rfl, ?_⟩, trivial⟩ <;> intro p hp <;> simp at hp <;> rcases hp with rfl | rfl <;>
+        exact ⟨rfl, by decide⟩
+    · exact ⟨rfl, by decide⟩
+
+/-- **reproducibility of the class-balanced sampler** as a statement about the whole run: equal dataset and
+    arguments, equal `seed + epoch`, equal tape ⇒ equal requests and equal stream (on every rank: `rankArg` is
+    one of the arguments). -/
+theorem balanced_iter_reproducible (c1 c2 : CBCfg) (e1 e2 : Nat) (tape : Tape)
+    (hcl : c1.classes = c2.classes) (hdc : c1.dimClass = c2.dimClass) (hsh : c1.shuffle = c2.shuffle)
+    (hspc : c1.spcArg = c2.spcArg) (hr : c1.rankArg = c2.rankArg) (hW : c1.wsArg = c2.wsArg)
+    (hseed : epochSeed c1.seed e1 = epochSeed c2.seed e2) :
+    (cbIter c1 e1 tape).reqs = (cbIter c2 e2 tape).reqs ∧ (cbIter c1 e1 tape).out = (cbIter c2 e2 tape).out := by
+  obtain ⟨cl1, dc1, sh1, spc1, seed1, r1, W1⟩ := c1
+  obtain ⟨cl2, dc2, sh2, spc2, seed2, r2, W2⟩ := c2
+  simp only at hcl hdc hsh hspc hr hW hseed
+  subst hcl hdc hsh hspc hr hW
+  have hG : cbGlobal ⟨cl1, dc1, sh1, spc1, seed1, r1, W1⟩ tape = cbGlobal ⟨cl1, dc1, sh1, spc1, seed2, r1, W1⟩ tape := rfl
+  unfold cbIter
+  rw [hG]
+  cases cbGlobal ⟨cl1, dc1, sh1, spc1, seed2, r1, W1⟩ tape with
+  | error e => simp [hseed]
+  | ok G =>
+    simp [cbReqs, hseed]
+    rfl
+
+/-- **totality of the class-balanced sampler's iterator** for the sampler object itself (whatever way its rank
+    was given, `rank=None` meaning rank 0): accepted by the constructor, labels below `num_classes`, rank below
+    the world size, well-shaped tape ⇒ `__iter__` yields exactly `len(sampler)` indices. -/
+theorem balanced_iter_total (c : CBCfg) (epoch : Nat) (tape : Tape) (hctor : cbCtor c = .ok ())
+    (hlab : CBLabelsOk c) (ht : CBTapeOk c tape) (hr : rankOf c.rankArg < wsOf c.wsArg) :
+    ∃ s, (cbIter c epoch tape).out = .ok s ∧ s.length = cbLen c := by
+  obtain ⟨G, hG, hlen, _⟩ := balanced_ranks_split c epoch tape hctor hlab ht
+  have hlen' : G.g.length = cbEffective c := hlen
+  obtain ⟨h3, _⟩ := rankSlice_spec G.g (rankOf c.rankArg) (wsOf c.wsArg) (cbEffective c) (cbLen c) hr
+    (Nat.div_mul_le_self _ _) (by rw [hlen']; exact Nat.le_refl _)
+  refine ⟨_, ?_, h3⟩
+  unfold cbIter
+  rw [hG]
+
+example : (cbIter ⟨[0, 1, 1, 1, 0], 1, false, none, 0, some 1, some 2⟩ 0 []).out = .ok [4, 1, 3] ∧
+    cbLen ⟨[0, 1, 1, 1, 0], 1, false, none, 0, some 1, some 2⟩ = 3 ∧
+    cbCtor ⟨[0, 1, 1, 1, 0], 1, false, none, 0, some 1, some 2⟩ = .ok () := ⟨rfl, rfl, rfl⟩
 
 end KDVerif.C12
